@@ -20,8 +20,16 @@ CLAIMS = {
          "Byte strings <= 9 (quick) / 17 (thorough) bytes; prefixes/suffixes <= 2 bytes."),
  "C20": ("One inductive back-off step from an arbitrary accounting state (all budgets, totals, per-call maxima as 64-bit symbols, every *Config variable generated from source, attempts 0..14), k-step sequences with resets, clone/fork/merge algebra, cancellation and kill; sleeping is virtual and tied to the accounting by a ghost total.",
          "time.After/Sleep virtual; rand.Intn arbitrary in range; expo() evaluated on concrete arguments; BackOffWeight from a boundary set in the overflow lemma (a symbolic 64-bit divisor is undecided by all solvers here)."),
+ "C05": ("The real KVSnapshot (Get, BatchGet incl. the async path, Scanner forward/reverse, cache, SetSnapshotTS, lock classification through the real LockResolver, RegionRequestSender and RegionCache) runs against a harness store holding symbolic MVCC content at the snapshot ts over a symbolic region layout; results are compared with a model for symbolic bounds, batch sizes, key-only, topology events (split/merge/epoch errors) and every ghost status of a foreign lock.",
+         "<= 3 rows with a 1,2,1 byte key-length profile, <= 3 regions, <= 2 topology events, one foreign transaction; replica-read variants outside. One known finding (reverse scan from the end of the key space)."),
+ "C13": ("ComposeTS/Extract algebra for all physical < 2^45 and logical < 2^18, expiry consistency for all 63-bit timestamps, setLastTS under compare-and-swap interference (function seam on atomic.Pointer.CompareAndSwap), low-resolution cache sequences with out-of-order futures, ValidateReadTS with the real singleflight and goroutines, the commit-wait loop, and the local oracle.",
+         "k <= 3 (quick) / 5 (thorough) operations or interferences; physical times of the calendar conversions from a boundary table; GetStaleTimestamp and the adaptive update interval outside; T4 explores one cooperative schedule."),
+ "C17": ("Latches.acquire/release and LatchesScheduler.wakeup at method granularity, and the real scheduler with one goroutine per transaction, against a ghost holder/max-commit model: exclusion, no lost wake-up, staleness exact, release never panics; arrival/unlock/wake-up order forked, timestamps symbolic.",
+         "3 transactions x <= 2 keys (quick); pool of 4 keys, 4 transactions and free-running goroutines under a preemption bound in thorough; timestamps symbolic over 8 spread bits (free 64-bit chains made z3 answer unknown); recycle outside."),
+ "C18": ("Reduced claim: id allocation, dispatch by id, exactly-once completion, failRequestsByIDs/failPendingRequests, the builder and the priority queue, one batchRecvLoop iteration per scripted stream and sendBatchRequest's selects with forked readiness.",
+         "<= 4 entries, <= 2 hosts. The property's quantifier over goroutine schedules, stream re-creation races and shutdown is OUTSIDE the claim (not addressable by this technique)."),
 }
-GREEN = ["C03", "C04", "C06", "C15", "C16", "C19", "C20"]
+GREEN = ["C03", "C04", "C05", "C06", "C13", "C15", "C16", "C17", "C18", "C19", "C20"]
 CLAIMS = {k: v for k, v in CLAIMS.items() if k in GREEN}
 NA = {
  "C01": "whole-system histories x schedules with the store in the loop: no unit decomposition preserves the statement and the whole-program concurrent run is outside what a symbolic interpreter + SMT can encode (DESIGN.md §4); client-local obligations are decided under C03/C04/C05/C12/C13",
